@@ -7,6 +7,7 @@ use embedded_graphics::mock_display::{ColorMapping, MockDisplay};
 use embedded_graphics::pixelcolor::*;
 use embedded_graphics::prelude::*;
 use embedded_graphics::primitives::Rectangle;
+use core::fmt::Write as _;
 use serde::{Deserialize, Serialize};
 use std::collections::BTreeMap;
 use std::hash::{Hash, Hasher};
@@ -115,6 +116,32 @@ fn check_state(s: &St, obs: &mut Obs) {
     if back != s.d || cells(&back) != cells(&s.d) {
         obs.fail("debug-from_pattern-round-trip", format!("from_pattern(Debug output) differs from the display; output:\n{dbg}"));
     }
+    if guarded(|| s.d.assert_pattern(&refs)).is_err() || guarded(|| s.d.assert_eq(&s.d.clone())).is_err() {
+        obs.fail("assert_pattern-panics-iff-cells-differ", "a display fails assert_pattern on its own Debug rows or assert_eq on its clone".to_string());
+    }
+    // other constructors and views: from_points, set_pixels, swap_xy (an involution that mirrors cells), map(identity)
+    {
+        let on: Vec<Point> = s.m.iter().filter(|(_, c)| **c).map(|(k, _)| Point::new(k.0, k.1)).collect();
+        let off: Vec<Point> = s.m.iter().filter(|(_, c)| !**c).map(|(k, _)| Point::new(k.0, k.1)).collect();
+        let mut rebuilt = MockDisplay::from_points(on.iter().copied(), BinaryColor::On);
+        rebuilt.set_pixels(off.iter().copied(), Some(BinaryColor::Off));
+        if cells(&rebuilt) != cells(&s.d) || rebuilt != s.d {
+            obs.fail("from_points/set_pixels-rebuild-the-display", "display rebuilt from its cells differs".to_string());
+        }
+        let sw = s.d.swap_xy();
+        let mirrored = (0..64).all(|y| (0..64).all(|x| sw.get_pixel(Point::new(y, x)) == s.d.get_pixel(Point::new(x, y))));
+        if !mirrored || sw.swap_xy() != s.d {
+            obs.fail("swap_xy-mirrors-cells", format!("cells mirrored: {mirrored}, involution: {}", sw.swap_xy() == s.d));
+        }
+        let inv = s.d.map(|c| c.invert()).map(|c| c.invert());
+        if inv != s.d || s.d.map(|c| c) != s.d {
+            obs.fail("map-applies-to-every-cell", "map(invert) twice or map(identity) changes the display".to_string());
+        }
+        let once = s.d.map(|c| c.invert());
+        if (0..64).any(|y| (0..64).any(|x| once.get_pixel(Point::new(x, y)) != s.d.get_pixel(Point::new(x, y)).map(|c| c.invert()))) {
+            obs.fail("map-applies-to-every-cell", "map(invert) is not the cell-wise inverse".to_string());
+        }
+    }
     // equality / diff against the predecessor and the blank display
     let blank = MockDisplay::<BinaryColor>::new();
     let mut others: Vec<(&MockDisplay<BinaryColor>, BTreeMap<P2, bool>)> = vec![(&blank, BTreeMap::new())];
@@ -125,6 +152,17 @@ fn check_state(s: &St, obs: &mut Obs) {
         let same = *om == s.m;
         if (s.d == **o) != same || (**o == s.d) != same {
             obs.fail("eq-iff-all-cells-agree", format!("== returned {}, cells agree: {}", s.d == **o, same));
+        }
+        // the assertion helpers tests actually call: they panic exactly when the displays differ
+        let (a1, a2) = (guarded(|| s.d.assert_eq(o)).is_err(), guarded(|| o.assert_eq_with_message(&s.d, |f| write!(f, "m"))).is_err());
+        if a1 == same || a2 == same {
+            obs.fail("assert_eq-panics-iff-cells-differ", format!("assert_eq panicked: {a1}, assert_eq_with_message (reversed) panicked: {a2}, cells agree: {same}"));
+        }
+        let (orows, _) = debug_rows(*o);
+        let orefs: Vec<&str> = orows.iter().map(|r| r.as_str()).collect();
+        let (p1, p2) = (guarded(|| s.d.assert_pattern(&orefs)).is_err(), guarded(|| s.d.assert_pattern_with_message(&orefs, |f| write!(f, "m"))).is_err());
+        if p1 == same || p2 == same {
+            obs.fail("assert_pattern-panics-iff-cells-differ", format!("assert_pattern panicked: {p1}, assert_pattern_with_message panicked: {p2}, cells agree: {same}"));
         }
         let df = s.d.diff(o);
         let mut dbad = None;
@@ -261,12 +299,15 @@ fn alphabet(tier: Tier) -> Vec<A> {
     v.push(A::Solid((62, 62, 3, 3), true));
     v.push(A::Solid((0, 0, 2, 1), false));
     v.push(A::Contig((62, 0, 2, 2), 3));
+    // sticks out on the right: the discarded points are not a suffix of the colour stream
+    v.push(A::Contig((63, 0, 2, 2), 4));
     v.push(A::Set((5, 7), None));
     v.push(A::Set((63, 0), Some(true)));
     if tier.is_thorough() {
         v.push(A::Draw(vec![((0, 63), true), ((0, i32::MIN), true)]));
         v.push(A::Solid((-1, 5, 3, 1), true));
         v.push(A::Contig((0, 63, 3, 2), 6));
+        v.push(A::Contig((-1, -1, 3, 2), 6));
         v.push(A::Clear(false));
         v.push(A::Set((0, 0), Some(false)));
     }
